@@ -383,6 +383,9 @@ func (c *cluster) availPhase(rt *rapid.T) {
 		for _, id := range c.leaders() {
 			if c.healthy[id] {
 				c.step(vAct{A: "probe", N: id})
+				// a node id nobody has used yet joins as non-voter
+				fresh := uint64(len(c.order) + 1)
+				c.step(vAct{A: "cfgprobe", N: id, M: fresh})
 				break
 			}
 		}
